@@ -219,7 +219,8 @@ func (ss *SpecSet) LoadContractFile(path, pkgPath string) error {
 		trusted := false
 		if w == "trusted" {
 			trusted = true
-			w, rest = firstWord(rest)
+			d.head.text = strings.TrimSpace(strings.TrimPrefix(strings.TrimSpace(d.head.text), "trusted"))
+			w, rest = firstWord(d.head.text)
 			rest = strings.TrimSpace(rest)
 		}
 		// merge continuation lines: a line not starting with a clause keyword continues the previous
